@@ -405,13 +405,18 @@ func check3MF(t ev.TB, rec *ev.Rec, api string, path string, model []tri3) {
 func drawTriangles(t *rapid.T) ([]tri3, []string) {
 	var labels []string
 	n := 0
-	switch rapid.IntRange(0, 9).Draw(t, "size") {
+	switch rapid.IntRange(0, 10).Draw(t, "size") {
 	case 0:
 		n = 0
 	case 1:
 		n = 1
 	case 2, 3, 4, 5, 6:
 		n = rapid.IntRange(2, 12).Draw(t, "n")
+	case 10:
+		// several channel batches (the writers receive the mesh in batches of 256 triangles): vertices
+		// shared between triangles that arrive in different batches
+		n = rapid.SampledFrom([]int{255, 256, 257, 300, 513, 700, 1100}).Draw(t, "n-multi-batch")
+		labels = append(labels, "multi-batch")
 	default:
 		n = rapid.IntRange(13, 60).Draw(t, "n")
 	}
@@ -424,6 +429,9 @@ func drawTriangles(t *rapid.T) ([]tri3, []string) {
 	npool := 0
 	if n > 0 {
 		npool = rapid.IntRange(1, 3+n).Draw(t, "npool")
+		if n > 200 {
+			npool = rapid.IntRange(3, 60).Draw(t, "npool-small") // heavy sharing across the whole list
+		}
 	}
 	pool := make([][3]float64, npool)
 	classes := map[string]bool{}
@@ -590,6 +598,9 @@ func drawSegments(t *rapid.T, f32 bool) ([]seg2, []string) {
 	npool := 0
 	if n > 0 {
 		npool = rapid.IntRange(1, 3+n).Draw(t, "npool")
+		if n > 200 {
+			npool = rapid.IntRange(3, 60).Draw(t, "npool-small") // heavy sharing across the whole list
+		}
 	}
 	classes := map[string]bool{"place:" + place: true}
 	pool := make([][2]float64, npool)
